@@ -59,7 +59,10 @@ Clauses(e) == CASE e.op = "get" -> GetClauses(e)
                 [] e.op = "multi_concrete" -> MultiConcreteClauses(e)
 
 Check == LET e == Events[i]
-             cl == Clauses(e)
+             \* under C08 the same recorded calls are judged for being read-only only
+             cl == IF IOEnv.VERIF_PROP = "C08"
+                   THEN << <<"ReadOnly", e.writes = <<>> /\ e.unchanged>> >>
+                   ELSE Clauses(e)
              bad == {j \in 1..Len(cl) : ~cl[j][2]}
          IN \/ bad = {}
             \/ LET j == CHOOSE j \in bad : \A m \in bad : j <= m
